@@ -9,7 +9,7 @@ absolute and custom-format (rendered wall clock, with/without a zone suffix).
 import datetime as dt
 
 from simkit import clockdrive, world
-from simkit.canon import canon_dt
+from simkit.canon import canon_dt, dec_value, enc_value
 
 PROP = "C12"
 LEVEL = "exploration"
@@ -24,7 +24,7 @@ ASSUMPTIONS = [
     "relative inputs keep delta small enough that the interpreting zone has no UTC-offset change between T-delta and T",
     "abbreviation / offset zones use offsets hard-coded in the harness (UTC, GMT, EST, EDT, PST, PDT, CET, CEST, JST, MSK, +HHMM forms)",
 ]
-EXPECTED_PROBES = {"relative": 1, "timestamp": 1, "absolute": 1, "custom": 1, "string_zone": 1, "local_nonutc": 1, "offsets_differ": 1, "aware_true": 1, "aware_false": 1, "near_dst": 1, "date_differs_between_zones": 1}
+EXPECTED_PROBES = {"relative_base_route": 1, "relative_clock_time": 1, "custom_format_with_zone": 1, "relative": 1, "timestamp": 1, "absolute": 1, "custom": 1, "string_zone": 1, "local_nonutc": 1, "offsets_differ": 1, "aware_true": 1, "aware_false": 1, "near_dst": 1, "date_differs_between_zones": 1}
 
 ABBR = {"UTC": 0, "GMT": 0, "EST": -300, "EDT": -240, "PST": -480, "PDT": -420, "CET": 60, "CEST": 120, "JST": 540, "MSK": 180,
         "+0530": 330, "-0330": -210, "+0100": 60, "-0800": -480, "+1400": 840, "+0545": 345, "-1100": -660, "-0300": -180, "+0900": 540}
@@ -135,6 +135,9 @@ def gen_case(rng, ctx):
         if r < 0.55:
             B = rng.choice(ctx.iana) if rng.random() < 0.8 else rng.choice(SETTING_ABBR)
             settings["TO_TIMEZONE"] = B
+        if A and rng.random() < 0.06:
+            B = A  # TO_TIMEZONE equal to TIMEZONE: still a conversion whenever the result is not in that zone yet
+            settings["TO_TIMEZONE"] = B
         extra = {}
         if ctx.table and rng.random() < 0.06:
             # an IANA source zone and a table abbreviation as the target that the source zone itself may "spell"
@@ -152,6 +155,8 @@ def gen_case(rng, ctx):
             sz = rng.choice(STRING_ZONES)
         if kind == "relative" and rng.random() < 0.25:
             sz = rng.choice(STRING_ZONES)  # "3 hours ago EST": now is taken in that zone
+        if kind == "custom" and rng.random() < 0.25:
+            sz = rng.choice(["+0530", "-0330", "+0100", "-0800", "+0545", "-0300", "+0900", "+1400"])  # rendered through %z
         interp = sz or A or zone
         zlist = [z for z in (interp, B, zone) if z]
         inst, near = draw_instant(rng, zlist)
@@ -161,6 +166,8 @@ def gen_case(rng, ctx):
         _EXTRA.clear()
         _EXTRA.update(extra)
         if kind == "relative":
+            import pytz
+
             unit = rng.choice(["hours", "minutes"])
             n = rng.randrange(0, 49) if unit == "hours" else rng.randrange(0, 3000)
             delta = dt.timedelta(**{unit: n})
@@ -168,11 +175,47 @@ def gen_case(rng, ctx):
             # no offset change, between T - delta and T (padded), of the zone the arithmetic happens in:
             # the interpreting zone, or TIMEZONE when the string's own zone is converted to it first
             arith = A if (sz and A) else interp
-            if arith.replace(":", "") not in ABBR and arith not in _EXTRA:
-                lo, hi = T - delta - dt.timedelta(hours=3), T + dt.timedelta(hours=3)
-                if any(lo <= t <= hi for t in transitions(arith, T.year - 1, T.year + 1)):
+            route = "base" if rng.random() < 0.35 else "clock"
+            for zz in {arith, interp}:
+                if zz.replace(":", "") not in ABBR and zz not in _EXTRA:
+                    lo, hi = T - delta - dt.timedelta(hours=3) - dt.timedelta(days=4), T + dt.timedelta(hours=3)
+                    if any(lo <= t <= hi for t in transitions(zz, T.year - 1, T.year + 1)):
+                        break
+            else:
+                zz = None
+            if zz is not None:
+                continue
+            case["route"] = route
+            if route == "base":
+                # RELATIVE_BASE given as an AWARE datetime (an unambiguous instant); the system clock is elsewhere
+                boff = rng.choice([0, 0, 330, -300, 540])
+                bw = T + dt.timedelta(minutes=boff)
+                case["base"] = {"__dt__": [bw.year, bw.month, bw.day, bw.hour, bw.minute, bw.second, bw.microsecond], "tz": {"offset_s": boff * 60.0}}
+                case["base_off"] = boff
+                skew = dt.datetime(rng.randrange(1971, 2036), rng.randrange(1, 13), rng.randrange(1, 29), rng.randrange(24), rng.randrange(60))
+                case["clock_us"] = world.to_us(skew)
+            else:
+                case["clock_us"] = world.to_us(T)
+            if rng.random() < 0.3:
+                # a clock time in the phrase: it is stated in the string's own zone if there is one,
+                # else in the zone the phrase is interpreted in
+                if route == "base" and not sz:
+                    Z = pytz.FixedOffset(case["base_off"]) if case["base_off"] else pytz.utc  # an aware base keeps its own wall clock
+                else:
+                    Z = zone_obj(sz or interp)
+                zs = [Z] + ([zone_obj(A)] if (sz and A) else [])
+                dates = {pytz.utc.localize(T).astimezone(z).date() for z in zs}
+                if len(dates) != 1:
+                    continue  # 'N days ago' must mean the same calendar day in every zone involved
+                nd, hh, mm = rng.randrange(0, 4), rng.randrange(24), rng.randrange(60)
+                wall = dt.datetime.combine(dates.pop() - dt.timedelta(days=nd), dt.time(hh, mm))
+                try:
+                    loc = Z.localize(wall, is_dst=None) if hasattr(Z, "localize") else wall.replace(tzinfo=Z)
+                except Exception:
                     continue
-            case.update({"clock_us": world.to_us(T), "string": "%d %s ago" % (n, unit) + (" " + sz if sz else ""), "instant": world.to_us(T - delta)})
+                case.update({"string": "%d days ago at %02d:%02d" % (nd, hh, mm) + (" " + sz if sz else ""), "instant": world.to_us(loc.astimezone(pytz.utc).replace(tzinfo=None)), "clock_time": True})
+                return case
+            case.update({"string": "%d %s ago" % (n, unit) + (" " + sz if sz else ""), "instant": world.to_us(T - delta)})
             return case
         # clock somewhere unrelated
         clock = dt.datetime(rng.randrange(1971, 2036), rng.randrange(1, 13), rng.randrange(1, 29), rng.randrange(24), rng.randrange(60))
@@ -193,6 +236,14 @@ def gen_case(rng, ctx):
         if wall is None:
             continue
         case["instant"] = world.to_us(inst)
+        if kind == "custom" and sz:
+            # a given format with %z: the string carries its own (numeric) zone
+            fmt = rng.choice(["%Y-%m-%d %H:%M:%S %z", "%d/%m/%Y %H:%M %z", "%Y%m%dT%H%M%S%z"])
+            s = fmt.replace("%Y", "%04d" % wall.year).replace("%m", "%02d" % wall.month).replace("%d", "%02d" % wall.day).replace("%H", "%02d" % wall.hour).replace("%M", "%02d" % wall.minute).replace("%S", "%02d" % wall.second).replace("%z", sz)
+            if "%S" not in fmt:
+                case["instant"] = world.to_us(inst.replace(second=0))
+            case.update({"string": s, "format": fmt})
+            return case
         if kind == "custom" and rng.random() < 0.3:
             # a date-only format: the wall clock it expresses is that day's midnight in the interpreting zone
             import pytz
@@ -229,7 +280,7 @@ def describe(case):
 
 
 def simplify(case):
-    if case["kind"] in ("absolute", "custom", "timestamp"):
+    if case["kind"] in ("absolute", "custom", "timestamp") or case.get("clock_time") or case.get("route") == "base":
         for k in list(case["settings"]):
             if k == "TIMEZONE":
                 continue  # the rendered wall clock depends on it
@@ -248,6 +299,8 @@ def eval_case(case):
     clk.set(case["clock_us"], case["policy"])
     n0 = len(clk.reads)
     settings = dict(case["settings"])
+    if case.get("base") is not None:
+        settings["RELATIVE_BASE"] = dec_value(case["base"])
     kw = {"languages": ["en"]}
     if case.get("format"):
         kw["date_formats"] = [case["format"]]
@@ -266,12 +319,14 @@ def eval_case(case):
         target = B
     elif sz and A:
         target = A
+    elif case.get("base") is not None and not sz:
+        target = None  # an aware RELATIVE_BASE keeps its own zone (its fixed offset)
     else:
         target = interp
     inst = pytz.utc.localize(world.from_us(case["instant"]))
     if case["kind"] == "timestamp":
         inst = inst.replace(microsecond=case.get("micro", 0))
-    tz_t = zone_obj(target)
+    tz_t = zone_obj(target) if target is not None else (pytz.FixedOffset(case["base_off"]) if case["base_off"] else pytz.utc)
     exp = inst.astimezone(tz_t)
     exp_wall, exp_off = exp.replace(tzinfo=None), exp.utcoffset()
     if aw is True:
@@ -281,6 +336,12 @@ def eval_case(case):
     else:
         exp_aware = bool(sz)
     stats = {case["kind"]: 1}
+    if case.get("route") == "base":
+        stats["relative_base_route"] = 1
+    if case.get("clock_time"):
+        stats["relative_clock_time"] = 1
+    if sz and case["kind"] == "custom":
+        stats["custom_format_with_zone"] = 1
     if sz:
         stats["string_zone"] = 1
     if not A and not sz and case["zone"] != "UTC":
@@ -324,6 +385,9 @@ def eval_case(case):
         return {"ok": True, "key": key, "stats": stats, "reads": reads, "outcome": outcome}
     pr = problems[0]
     sig = {"kind": pr[0], "parser": case["kind"], "timezone": zclass(A), "to_timezone": zclass(B) if B else None, "aware": aw, "string_zone": bool(sz)}
+    if case["kind"] == "relative":
+        sig["route"] = case.get("route", "clock")
+        sig["clock_time"] = bool(case.get("clock_time"))
     detail = "%s: parse(%r, date_formats=%r, settings=%r) process zone %s, clock %s -> %r; %s" % (pr[0], case["string"], case.get("format"), settings, case["zone"], world.from_us(case["clock_us"]), res, pr[1])
     return {"ok": False, "key": key, "sig": sig, "detail": detail, "stats": stats, "reads": reads, "outcome": outcome, "expected": [str(exp_wall), str(exp_off), exp_aware]}
 
